@@ -494,6 +494,9 @@ func runCase(ctx context.Context, mode, init string, ops []string) (res caseResu
 				fail("C14/write-in-readonly-txn", "a non-writer transaction issued a data write from "+op, ws)
 			}
 		}
+		if !writer && isMutation(op) && okRes {
+			fail("C14/mutation-accepted-in-readonly-txn", "add/update/remove returned ok in a non-writer transaction (mode "+mode+")", op+" -> "+r)
+		}
 		if committedOK && op == "rollback" && okRes {
 			fail("C14/rollback-after-commit-succeeded", "Rollback returned nil after a successful commit", "")
 		}
@@ -738,7 +741,7 @@ func run(o hx.RunOpts) error {
 	// exAll: every sequence up to this length (full alphabet); exBegin: every `begin`+suffix up to this total length (full
 	// alphabet); exOpenFull / exOpenCore: every `begin` (newbtree|openbtree) + suffix of this total length (full / core alphabet)
 	exAll, exBegin, exOpenFull, exOpenCore := 4, 4, 5, 0
-	nRandom := 1000
+	nRandom := 600
 	if o.Thorough() {
 		exAll, exBegin, exOpenFull, exOpenCore = 5, 5, 5, 6
 		nRandom = 5000
@@ -847,9 +850,18 @@ func emit(s *hx.Session, c spec, r caseResult) {
 		s.Nontrivial()
 	}
 	for _, f := range r.Fails {
-		s.Fail(f.Sig, f.What, f.Detail)
+		// hx keeps the first 200 failures only: record at most 5 per signature so that thousands of instances of a
+		// known finding cannot crowd out a different failure; the histogram still counts every instance
+		if failsBySig[f.Sig] < 5 {
+			failsBySig[f.Sig]++
+			s.Fail(f.Sig, f.What, f.Detail)
+		} else {
+			s.Hit("oracle_fail:" + f.Sig)
+		}
 	}
 }
+
+var failsBySig = map[string]int{}
 
 func explore(args []string) error {
 	ctx := context.Background()
